@@ -1489,13 +1489,14 @@ class sptensor:
         """
         old = np.setdiff1d(np.arange(self.ndims), n).astype(int)
         # tnt calculation is a workaround for missing sptenmat
-        mutatable_sptensor = (
-            self.copy().reshape((np.prod(np.array(self.shape)[old]), 1), old).squeeze()
-        )
-        if isinstance(mutatable_sptensor, (int, float, np.generic)):
+        reshaped = self.copy().reshape((np.prod(np.array(self.shape)[old]), 1), old)
+        if all(s == 1 for s in reshaped.shape):
             raise ValueError(
                 "Cannot call nvecs on sptensor with only singleton dimensions"
             )
+        # (mode n) x (other modes) matrix; squeeze() would also drop a singleton
+        # mode n (or a singleton product of the other modes)
+        mutatable_sptensor = reshaped.reshape(reshaped.shape[:2])
         tnt = mutatable_sptensor.spmatrix().transpose()
         y = tnt.transpose().dot(tnt)
         if r < y.shape[0] - 1:
